@@ -1,11 +1,24 @@
-(* DomForeignFacts.v — proofs for props/C06_foreign.v (definitions in DomForeign.v).
-   Stage 1: the tree the object model builds from a well-formed foreign file, and when it accepts the file. *)
+(* DomForeignFacts.v — proofs for props/C06_foreign.v (definitions in DomForeign.v): C06 for files of other producers.
+   Stage 1 (A)  [foreign_read]: the tree the object model builds from a well-formed foreign file, section by section
+                ([step_read] under the shape invariant [Shape]), and exactly when it accepts the file.
+   Stage 2 (B)  [foreign_writes]: the tree serialises.  [foreign_tree_calls]: the DOM writer's call list is
+                [file_calls f] (one section at a time, [step_calls], under the invariant [Fresh] "what has not been
+                filled yet"); [write_secs]: the streaming writer accepts these calls, by simulation along the
+                sections: the writer's encoding stack mirrors the file's encoding context and its order table allows
+                what the specification allows ([WSt]); each call is accepted by WriterFacts.C09_accept_complete
+                (metadata with no encoding in force: [meta_bytes_accept]).
+   Stage 3 (C)+(D)  [G_tree]: the tree is typed, its encodings are catalogue spellings, its indents legal, and
+                normalising it keeps every section's contents ([step_good]); [contents_final_wf]: texts and diffs of a
+                well-formed file already end with the line ending the object model determines (for undeclared line
+                endings: the text-level detection agrees with the byte-level one, [unix_text_guess]);
+                [C06_foreign]: composition with DomCompose.C06_full.
+   Instances and the [_refuted] witnesses at the end. *)
 From Coq Require Import List Arith NArith ZArith Bool Strings.Byte Lia.
 From Coq Require Strings.String.
 From DX Require Import Bytes Res Codec Text Sections Header Stream Json Reader Writer Dom SectionsSpec SpecReader.
 From DX Require HeaderFacts TextFacts SectionsFacts WriterFacts WriterCanonFacts Encodings SpecReaderBase SpecReaderFacts DomFacts.
 From DX Require Import DomSpec DomSpecFacts DomCompose DomForeign.
-From DX Require SpecReaderExamples.
+From DX Require SpecReaderExamples DomComposeCanon SpecReaderContent SpecReaderCodec RoundTripSim RoundTripCodec RoundTrip RoundTripGuess RoundTripContent.
 From DXGen Require GenSections GenText GenCodecs.
 Import ListNotations.
 Import String.StringSyntax.
@@ -1381,12 +1394,12 @@ Proof.
     apply (write_pre prev x s st txt); auto. rewrite Eid; reflexivity.
   - destruct Hpay as [j Ep]. rewrite Ep in Hacc. destruct j as [| | | | | |kv|]; try discriminate Hacc. rewrite <- Eid.
     apply (write_meta prev x s st kv); auto. rewrite Eid; reflexivity.
-  - rewrite <- Eid. apply write_container; auto.
+  - rewrite <- Eid. apply (write_container prev x s st); auto.
   - destruct (sec_payload s) as [|txt| |] eqn:Ep; try discriminate Hacc. rewrite <- Eid.
     apply (write_pre prev x s st txt); auto. rewrite Eid; reflexivity.
   - destruct Hpay as [j Ep]. rewrite Ep in Hacc. destruct j as [| | | | | |kv|]; try discriminate Hacc. rewrite <- Eid.
     apply (write_meta prev x s st kv); auto. rewrite Eid; reflexivity.
-  - rewrite <- Eid. apply write_container; auto.
+  - rewrite <- Eid. apply (write_container prev x s st); auto.
   - destruct Hpay as [j Ep]. rewrite Ep in Hacc. destruct j as [| | | | | |kv|]; try discriminate Hacc. rewrite <- Eid.
     apply (write_meta prev x s st kv); auto. rewrite Eid; reflexivity.
   - destruct Hpay as [b Ep]. rewrite <- Eid. apply (write_diff prev x s st b); auto. rewrite Eid; reflexivity.
@@ -1453,4 +1466,1023 @@ Proof.
   assert (Hin : In k (map fst (assoc_del beq a (assoc_del beq b o)))) by (rewrite E; left; reflexivity).
   apply adel_keys_gen in Hin. destruct Hin as [Hin Na]. apply adel_keys_gen in Hin. destruct Hin as [Hin Nb].
   destruct (H k Hin); contradiction.
+Qed.
+
+Lemma forallb_and {A} : forall (p q : A -> bool) l, forallb p l = true -> forallb q l = true ->
+  forallb (fun a => p a && q a) l = true.
+Proof.
+  intros p q l Hp Hq. rewrite forallb_forall in *. intros a Ha. rewrite (Hp a Ha), (Hq a Ha). reflexivity.
+Qed.
+
+Lemma secs_writable : forall f,
+  dom_accepts f = true -> opts_known f = true -> no_meta_line_endings f = true -> choice_values_ok f = true ->
+  sub_metas_nonempty f = true -> metas_plain f = true -> forallb sec_writable (ff_sections f) = true.
+Proof.
+  intros f H1 H2 H3 H4 H5 H6. unfold sec_writable. repeat apply forallb_and; assumption.
+Qed.
+
+Lemma main_first : forall m rest, wf_secs None ectx0 (m :: rest) = true ->
+  fs_id m = Main /\ wf_section None ectx0 m = true /\ wf_secs (Some Main) (ectx_next ectx0 m) rest = true.
+Proof.
+  intros m rest H. cbn [wf_secs] in H. apply andb_true_iff in H. destruct H as [Hm Hr].
+  pose proof (wf_order _ _ _ Hm) as Ho. cbn [order_ok] in Ho. apply SectionsSpec.sid_eqb_eq in Ho.
+  rewrite Ho in Hr. auto.
+Qed.
+
+(* the constructor arguments of the tree read from a file whose main header is [m] *)
+Lemma main_tree_args : forall m t,
+  wf_section None ectx0 m = true -> fs_id m = Main -> sec_opts_known m = true ->
+  d_opts t = sec_dopts m ->
+  tree_encoding t = wenc (opt "encoding" (fs_opts m)) /\ tree_version t = v10 /\ main_keys_ok t = true.
+Proof.
+  intros m t Hwf Eid Hkn Ho. destruct (wf_parts _ _ _ Hwf) as (_ & _ & Henc & Hk).
+  rewrite Eid in Hk. cbn [sid_kind] in Hk.
+  destruct (fs_content m); [destruct f; contradiction|].
+  unfold tree_encoding, tree_version, main_keys_ok. rewrite Ho. split; [|split].
+  - pose proof (kw_dopts m "encoding") as E. unfold kw in E. rewrite E. apply enc_wval. exact Henc.
+  - rewrite sec_dopts_get. unfold version_ok in Hk. destruct (opt "version" (fs_opts m)) as [v|]; [|discriminate Hk].
+    apply beq_eq in Hk. subst v. reflexivity.
+  - rewrite (adel2_nil (sec_dopts m) (B "encoding") (B "version")); [reflexivity|].
+    intros k Hin. apply sec_dopts_keys in Hin. unfold sec_opts_known in Hkn. rewrite Eid in Hkn.
+    destruct (keys_in_In _ _ _ Hkn Hin) as [a [[<-|[<-|[]]] ->]]; auto.
+Qed.
+
+Lemma sec_calls_main : forall m, fs_id m = Main -> sec_calls m = [].
+Proof. intros m H. unfold sec_calls. rewrite H. reflexivity. Qed.
+
+(* (B): the tree read from a well-formed foreign file serialises *)
+Theorem foreign_writes : forall f,
+  wf_file f = true -> dom_accepts f = true -> opts_known f = true -> no_meta_line_endings f = true ->
+  choice_values_ok f = true -> sub_metas_nonempty f = true -> metas_plain f = true ->
+  exists b, dom_write (tree_of_file f) = Ok b.
+Proof.
+  intros f Hwf Hacc Hkn Hle Hch Hne Hpl.
+  pose proof (foreign_tree_calls f Hwf Hacc Hkn Hle) as Hcalls.
+  pose proof (secs_writable f Hacc Hkn Hle Hch Hne Hpl) as Hw.
+  unfold wf_file in Hwf. apply andb_true_iff in Hwf. destruct Hwf as [Hsecs _].
+  unfold tree_of_file, file_calls, opts_known in *.
+  destruct (ff_sections f) as [|m rest] eqn:Ess.
+  - vm_compute. eexists. reflexivity.
+  - destruct (main_first m rest Hsecs) as (Eid & Hm & Hrest).
+    cbn [forallb] in Hw, Hkn. apply andb_true_iff in Hw, Hkn. destruct Hw as [_ Hw], Hkn as [Km _].
+    cbn [tree_of_secs fold_left] in *. change (fold_left tof_step rest (tof_step new_tree m)) with (tree_of_secs (tof_step new_tree m) rest) in *.
+    set (t := tree_of_secs (tof_step new_tree m) rest) in *.
+    assert (Ho : d_opts t = sec_dopts m).
+    { unfold t. rewrite (tree_of_secs_opts rest Main _ _ Hrest). unfold tof_step. rewrite Eid. reflexivity. }
+    destruct (main_tree_args m t Hm Eid Km Ho) as (Eenc & Ever & Hkeys).
+    destruct (wf_parts _ _ _ Hm) as (_ & _ & Henc & _).
+    destruct (init_ok _ Henc) as [s0 Hinit].
+    destruct (init_state _ _ Hinit) as (Hr0 & Hst0 & Hp0).
+    assert (HW : WSt Main (ectx_next ectx0 m) s0).
+    { split; [exact Hr0|]. split.
+      - rewrite Hst0. unfold ectx_next. rewrite Eid. reflexivity.
+      - exists Main. split; [exact Hp0 | auto]. }
+    destruct (write_secs rest Main _ s0 Hrest Hw HW) as (s1 & Hrun).
+    exists (w_out s1). apply C05_write_is_calls. split; [exact Hkeys|].
+    exists s0, (flat_map sec_calls rest), s1. rewrite Eenc, Ever. split; [exact Hinit|].
+    split; [|split; [exact Hrun | reflexivity]].
+    rewrite Hcalls. cbn [flat_map]. rewrite (sec_calls_main m Eid). reflexivity.
+Qed.
+
+(* ================================================================================================ *)
+(** * Stage 3 (C)+(D): the tree is in the domain of C05_full / C06_full, and normalisation keeps its contents *)
+
+Definition G_p (p : psec) : Prop :=
+  typed_opts (p_opts p) = true /\ enc_okb (psec_enc p) = true /\ psec_indent_ok p = true /\
+  psec_text (norm_psec p) = psec_text p.
+Definition G_m (m : msec) : Prop := typed_opts (m_opts m) = true /\ enc_okb (msec_enc m) = true.
+Definition G_d (d : dsec) : Prop :=
+  typed_opts (x_opts d) = true /\ enc_okb (dsec_enc d) = true /\ dsec_bytes (norm_dsec d) = dsec_bytes d.
+Definition G_o (o : dopts) : Prop := typed_copts o = true /\ enc_okb (copts_enc o) = true.
+Definition G_file (f : dfile) : Prop := G_o (f_opts f) /\ G_m (f_meta f) /\ G_d (f_diff f).
+Definition G_change (c : dchange) : Prop :=
+  G_o (c_opts c) /\ G_p (c_pre c) /\ G_m (c_meta c) /\ Forall G_file (c_files c).
+Definition G_tree (t : dtree) : Prop :=
+  typed_opts (d_opts t) = true /\ enc_okb (tree_encoding t) = true /\ G_p (d_pre t) /\ G_m (d_meta t) /\
+  Forall G_change (d_changes t).
+
+Lemma forallb_Forall {A} : forall (g : A -> bool) l, Forall (fun a => g a = true) l -> forallb g l = true.
+Proof. intros g l H. apply forallb_forall. rewrite Forall_forall in H. exact H. Qed.
+
+Lemma G_file_facts : forall f, G_file f ->
+  typed_file f = true /\ file_encs enc_okb f = true /\ file_contents (norm_file f) = file_contents f.
+Proof.
+  intros f ((O1 & O2) & (M1 & M2) & (D1 & D2 & D3)). split; [|split].
+  - unfold typed_file. rewrite O1, M1, D1. reflexivity.
+  - unfold file_encs. rewrite O2, M2, D2. reflexivity.
+  - unfold file_contents, norm_file. cbn [f_meta f_diff]. rewrite D3. f_equal.
+    unfold norm_msec. destruct (is_nil (m_content (f_meta f))) eqn:E; [|reflexivity].
+    destruct (m_content (f_meta f)); [reflexivity | discriminate E].
+Qed.
+
+Lemma norm_msec_content : forall m, m_content (norm_msec m) = m_content m.
+Proof.
+  intro m. unfold norm_msec. destruct (is_nil (m_content m)) eqn:E; [|reflexivity].
+  destruct (m_content m); [reflexivity | discriminate E].
+Qed.
+
+Lemma G_change_facts : forall c, G_change c ->
+  typed_change c = true /\ change_encs enc_okb c = true /\ psec_indent_ok (c_pre c) = true /\
+  change_contents (norm_change c) = change_contents c.
+Proof.
+  intros c ((O1 & O2) & (P1 & P2 & P3 & P4) & (M1 & M2) & HF).
+  assert (F1 : forallb typed_file (c_files c) = true).
+  { apply forallb_Forall. eapply Forall_impl; [|exact HF]. intros f Hf. apply (G_file_facts f Hf). }
+  assert (F2 : forallb (file_encs enc_okb) (c_files c) = true).
+  { apply forallb_Forall. eapply Forall_impl; [|exact HF]. intros f Hf. apply (G_file_facts f Hf). }
+  split; [|split; [|split]].
+  - unfold typed_change. rewrite O1, P1, M1, F1. reflexivity.
+  - unfold change_encs. rewrite O2, P2, M2, F2. reflexivity.
+  - exact P3.
+  - unfold change_contents, norm_change. cbn [c_pre c_meta c_files]. rewrite P4, norm_msec_content, map_map. f_equal.
+    apply map_ext_in. intros f Hin. rewrite Forall_forall in HF. apply (G_file_facts f (HF f Hin)).
+Qed.
+
+Theorem G_tree_facts : forall t, G_tree t ->
+  typed_tree t = true /\ tree_encs_ok t = true /\ tree_indents_ok t = true /\ same_contents t (normalise t).
+Proof.
+  intros t (O1 & O2 & (P1 & P2 & P3 & P4) & (M1 & M2) & HC).
+  assert (C1 : forallb typed_change (d_changes t) = true).
+  { apply forallb_Forall. eapply Forall_impl; [|exact HC]. intros c Hc. apply (G_change_facts c Hc). }
+  assert (C2 : forallb (change_encs enc_okb) (d_changes t) = true).
+  { apply forallb_Forall. eapply Forall_impl; [|exact HC]. intros c Hc. apply (G_change_facts c Hc). }
+  assert (C3 : forallb (fun c => psec_indent_ok (c_pre c)) (d_changes t) = true).
+  { apply forallb_Forall. eapply Forall_impl; [|exact HC]. intros c Hc. apply (G_change_facts c Hc). }
+  split; [|split; [|split]].
+  - unfold typed_tree. rewrite O1, P1, M1, C1. reflexivity.
+  - unfold tree_encs_ok, tree_encs. rewrite O2, P2, M2, C2. reflexivity.
+  - unfold tree_indents_ok. rewrite P3, C3. reflexivity.
+  - unfold same_contents, tree_contents, normalise. cbn [d_pre d_meta d_changes]. rewrite P4, norm_msec_content, map_map.
+    f_equal. symmetry. apply map_ext_in. intros c Hin. rewrite Forall_forall in HC. apply (G_change_facts c (HC c Hin)).
+Qed.
+
+(* the empty sections *)
+Lemma G_new_psec : G_p new_psec. Proof. repeat split; reflexivity. Qed.
+Lemma G_new_msec : G_m new_msec. Proof. split; vm_compute; reflexivity. Qed.
+Lemma G_new_dsec : G_d new_dsec. Proof. repeat split; reflexivity. Qed.
+
+(** ** the options of a well-formed section are typed *)
+
+Lemma in_unique_get : forall (o : dopts) k v, keys_unique o = true -> In (k, v) o -> assoc_get beq k o = Some v.
+Proof.
+  induction o as [|[k0 v0] o IH]; intros k v Hu Hin; [destruct Hin|].
+  cbn [keys_unique] in Hu. apply andb_true_iff in Hu. destruct Hu as [H1 H2]. apply negb_true_iff in H1.
+  cbn [assoc_get]. destruct Hin as [E|Hin].
+  - injection E as -> ->. rewrite (proj2 (beq_eq k k) eq_refl). reflexivity.
+  - destruct (beq k k0) eqn:E; [|apply IH; assumption].
+    apply beq_eq in E. subst k0. exfalso.
+    assert (X : existsb (fun p => beq k (fst p)) o = true).
+    { apply existsb_exists. exists (k, v). split; [exact Hin | apply beq_eq; reflexivity]. }
+    congruence.
+Qed.
+
+Definition val_typed (v : option bytes) : Prop :=
+  match v with Some x => hv_ok (wv_of_pv (spec_conv x)) = true | None => True end.
+
+Lemma val_typed_str : forall x, int_ok x = false -> val_typed (Some x).
+Proof.
+  intros x H. cbn [val_typed]. rewrite (SpecReaderBase.spec_conv_str x H). cbn [wv_of_pv hv_ok].
+  apply DomComposeCanon.ascii_str_ok. exact H.
+Qed.
+
+Lemma val_typed_enc : forall ps, enc_opt_ok ps = true -> val_typed (opt "encoding" ps).
+Proof.
+  intros ps H. destruct (enc_opt_cases ps H) as [->|(e & c & -> & Hc)]; [exact I|].
+  apply val_typed_str. exact (SpecReaderContent.codec_of_not_int e c Hc).
+Qed.
+
+Lemma val_typed_indent : forall ps, indent_ok ps = true -> val_typed (opt "indent" ps).
+Proof.
+  intros ps H. unfold indent_ok in H. destruct (opt "indent" ps) as [v|]; [|exact I].
+  cbn [val_typed]. destruct (spec_conv v); [reflexivity | discriminate H].
+Qed.
+
+Lemma val_typed_le : forall ps c k body, le_ok ps c k body = true -> val_typed (opt "line_endings" ps).
+Proof.
+  intros ps c k body H. unfold le_ok in H. destruct (opt "line_endings" ps) as [v|]; [|exact I].
+  apply beq_eq in H. subst v. destruct k; vm_compute; reflexivity.
+Qed.
+
+Lemma val_typed_set : forall v set, forallb (fun x => negb (int_ok x)) set = true -> in_set v set = true -> val_typed v.
+Proof.
+  intros v set Hs H. destruct v as [y|]; [|exact I]. cbn [in_set] in H. apply mem_beq_In in H.
+  apply val_typed_str. rewrite forallb_forall in Hs. specialize (Hs y H). destruct (int_ok y); [discriminate Hs | reflexivity].
+Qed.
+
+Lemma val_typed_format : forall ps, format_ok ps = true -> val_typed (opt "format" ps).
+Proof.
+  intros ps H. unfold format_ok in H. destruct (opt "format" ps) as [v|]; [|exact I].
+  apply beq_eq in H. subst v. vm_compute. reflexivity.
+Qed.
+
+Lemma val_typed_version : forall ps, version_ok ps = true -> val_typed (opt "version" ps).
+Proof.
+  intros ps H. unfold version_ok in H. destruct (opt "version" ps) as [v|]; [|exact I].
+  apply beq_eq in H. subst v. vm_compute. reflexivity.
+Qed.
+
+(* typed options from typed values of the allowed keys *)
+Lemma typed_copts_sec : forall s (al : list String.string),
+  (forall k, In k (map fst (sec_copts s)) -> exists a, In a al /\ k = B a /\ B a <> B "length") ->
+  (forall a, In a al -> val_typed (opt a (fs_opts s))) ->
+  typed_opts (sec_copts s) = true.
+Proof.
+  intros s al Hk Hv. unfold typed_opts. apply forallb_forall. intros [k v] Hin. cbn [snd].
+  destruct (Hk k (in_map fst _ _ Hin)) as (a & Ha & -> & Hn).
+  pose proof (in_unique_get _ _ _ (sec_copts_unique s) Hin) as Hg.
+  rewrite (sec_copts_get s a Hn) in Hg. specialize (Hv a Ha).
+  destruct (opt a (fs_opts s)) as [x|]; [|discriminate Hg]. cbn [option_map] in Hg. injection Hg as <-. exact Hv.
+Qed.
+
+Lemma only_keys_nolen : forall s al, only_keys (sec_copts s) al = true ->
+  forall k, In k (map fst (sec_copts s)) -> exists a, In a al /\ k = B a /\ B a <> B "length".
+Proof.
+  intros s al H k Hin. apply in_map_iff in Hin. destruct Hin as [p [<- Hp]].
+  destruct (only_keys_In _ _ _ H Hp) as [a [Ha E]]. exists a. split; [exact Ha|]. split; [exact E|].
+  rewrite <- E. exact (proj2 (sec_copts_keys s (fst p) (in_map fst _ _ Hp))).
+Qed.
+
+Lemma enc_okb_wenc : forall ps, enc_opt_ok ps = true -> enc_okb (wenc (opt "encoding" ps)) = true.
+Proof.
+  intros ps H. apply enc_ok_okb. destruct (enc_opt_cases ps H) as [->|(e & c & -> & Hc)]; [left; reflexivity|].
+  right. unfold codec_of in Hc. destruct (lookup_codec e) as [canon c'| |] eqn:E; try discriminate Hc.
+  exists e, canon, c'. split; [reflexivity | exact E].
+Qed.
+
+Lemma G_sec_psec : forall prev x s txt, wf_section prev x s = true -> sid_kind (fs_id s) = SPreamble ->
+  sec_opts_known s = true -> sec_choices_ok s = true -> sec_content_final s = true -> sec_payload s = PText txt ->
+  G_p (sec_psec s).
+Proof.
+  intros prev x s txt Hwf Hk Hkn Hch Hfin Hp.
+  destruct (wf_parts _ _ _ Hwf) as (_ & _ & Henc & _).
+  destruct (wf_pre_text _ _ _ _ Hwf Hk Hp) as (t & _ & Etxt & Htok & Hind).
+  pose proof (pre_text_nonempty _ _ _ _ Hwf Hk Hp) as Hne.
+  unfold text_ok in Htok. destruct (text_codec x s) as [cd|] eqn:Ecd; [|discriminate Htok].
+  rewrite !andb_true_iff in Htok. destruct Htok as [[_ T5] _].
+  unfold G_p, sec_psec, psec_enc, psec_indent_ok. cbn [p_opts p_content]. split; [|split; [|split]].
+  - apply (typed_copts_sec s ["encoding"; "indent"; "line_endings"; "mimetype"]).
+    + apply only_keys_nolen. exact (pre_only_keys s Hk Hkn).
+    + intros a [<-|[<-|[<-|[<-|[]]]]].
+      * exact (val_typed_enc _ Henc).
+      * exact (val_typed_indent _ Hind).
+      * exact (val_typed_le _ _ _ _ T5).
+      * apply (val_typed_set _ _ mimetypes_not_int). unfold sec_choices_ok in Hch. rewrite Hk in Hch. exact Hch.
+  - rewrite kw_copts by discriminate. rewrite (enc_wval _ Henc). exact (enc_okb_wenc _ Henc).
+  - rewrite kw_opt_copts by discriminate. destruct (indent_cases _ Hind) as [->|(z & -> & Hz)]; [reflexivity|].
+    cbn [indent_okb]. apply Z.leb_le. exact Hz.
+  - unfold sec_content_final in Hfin. rewrite Hk, Hp in Hfin. unfold payload_text in *. rewrite Hp in *.
+    apply DomFacts.teq_eq in Hfin. unfold wopt in Hfin.
+    unfold norm_psec. cbn [p_content p_opts]. rewrite (is_nil_false _ Hne).
+    destruct (pre_resolve (kw (sec_copts s) "line_endings") txt) as [le nl]. cbn [snd] in Hfin.
+    unfold psec_text. cbn [p_content]. exact Hfin.
+Qed.
+
+Lemma G_sec_msec : forall prev x s j, wf_section prev x s = true -> sid_kind (fs_id s) = SMeta ->
+  sec_opts_known s = true -> sec_no_meta_le s = true -> sec_payload s = PMeta j -> G_m (sec_msec s).
+Proof.
+  intros prev x s j Hwf Hk Hkn Hle Hp.
+  destruct (wf_parts _ _ _ Hwf) as (_ & _ & Henc & _).
+  destruct (wf_meta_cases _ _ _ _ Hwf Hk Hp) as (Hfmt & _).
+  pose proof (meta_only_keys s Hk Hkn Hle) as Hok.
+  unfold G_m, sec_msec, msec_enc. cbn [m_opts]. split.
+  - apply (typed_copts_sec s ["encoding"; "format"]).
+    + apply only_keys_nolen. exact Hok.
+    + intros a [<-|[<-|[]]]; [exact (val_typed_enc _ Henc) | exact (val_typed_format _ Hfmt)].
+  - rewrite (proj1 (remap_kw_meta (sec_copts s) (sec_copts_unique s) Hok)).
+    rewrite kw_copts by discriminate. rewrite (enc_wval _ Henc). exact (enc_okb_wenc _ Henc).
+Qed.
+
+Lemma G_sec_dsec : forall prev x s b, wf_section prev x s = true -> sid_kind (fs_id s) = SDiff ->
+  sec_opts_known s = true -> sec_choices_ok s = true -> sec_content_final s = true -> sec_payload s = PBytes b ->
+  G_d (sec_dsec s).
+Proof.
+  intros prev x s b Hwf Hk Hkn Hch Hfin Hp.
+  destruct (wf_parts _ _ _ Hwf) as (_ & _ & Henc & _).
+  destruct (wf_diff_bytes _ _ _ _ Hwf Hk Hp) as (k & _ & Hdok).
+  pose proof (diff_bytes_nonempty _ _ _ _ Hwf Hk Hp) as Hne.
+  unfold diff_ok in Hdok. destruct (diff_codec s) as [cd|]; [|discriminate Hdok].
+  rewrite !andb_true_iff in Hdok. destruct Hdok as [[_ D3] _].
+  pose proof (diff_only_keys s Hk Hkn) as Hok.
+  destruct (remap_kw_diff (sec_copts s) (sec_copts_unique s) Hok) as [E1 [E2 E3]].
+  unfold G_d, sec_dsec, dsec_enc. cbn [x_opts x_content]. split; [|split].
+  - apply (typed_copts_sec s ["encoding"; "line_endings"; "type"]).
+    + apply only_keys_nolen. exact Hok.
+    + intros a [<-|[<-|[<-|[]]]].
+      * exact (val_typed_enc _ Henc).
+      * exact (val_typed_le _ _ _ _ D3).
+      * apply (val_typed_set _ _ diff_types_not_int). unfold sec_choices_ok in Hch. rewrite Hk in Hch. exact Hch.
+  - rewrite E1. rewrite kw_copts by discriminate. rewrite (enc_wval _ Henc). exact (enc_okb_wenc _ Henc).
+  - unfold sec_content_final in Hfin. rewrite Hk, Hp in Hfin. unfold payload_bytes in *. rewrite Hp in *.
+    apply beq_eq in Hfin. unfold wopt in Hfin.
+    unfold norm_dsec. cbn [x_content x_opts]. rewrite (is_nil_false _ Hne), E1, E2.
+    destruct (diff_prepared (kw (sec_copts s) "line_endings") (kw (sec_copts s) "encoding") b) as [body le].
+    cbn [fst] in Hfin. unfold dsec_bytes. cbn [x_content]. exact Hfin.
+Qed.
+
+Lemma G_enc_dopts : forall ps, enc_opt_ok ps = true -> G_o (enc_dopts (opt "encoding" ps)).
+Proof.
+  intros ps H. unfold G_o, copts_enc. split.
+  - destruct (enc_opt_cases ps H) as [->|(e & c & -> & Hc)]; [reflexivity|].
+    cbn [enc_dopts typed_copts forallb snd sv_ok]. rewrite andb_true_r.
+    apply DomComposeCanon.ascii_str_ok. exact (SpecReaderContent.codec_of_not_int e c Hc).
+  - assert (E : kw (enc_dopts (opt "encoding" ps)) "encoding" = wenc (opt "encoding" ps))
+      by (destruct (opt "encoding" ps); reflexivity).
+    rewrite E. exact (enc_okb_wenc _ H).
+Qed.
+
+Lemma G_main_opts : forall m x, wf_section None x m = true -> fs_id m = Main -> sec_opts_known m = true ->
+  typed_opts (sec_dopts m) = true.
+Proof.
+  intros m x Hwf Eid Hkn. destruct (wf_parts _ _ _ Hwf) as (_ & _ & Henc & Hk).
+  rewrite Eid in Hk. cbn [sid_kind] in Hk. destruct (fs_content m); [destruct f; contradiction|].
+  unfold typed_opts. apply forallb_forall. intros [k v] Hin. cbn [snd].
+  pose proof (in_unique_get _ _ _ (sec_dopts_unique m) Hin) as Hg.
+  pose proof (sec_dopts_keys m k (in_map fst _ _ Hin)) as Hkey.
+  unfold sec_opts_known in Hkn. rewrite Eid in Hkn.
+  destruct (keys_in_In _ _ _ Hkn Hkey) as [a [Ha ->]]. rewrite sec_dopts_get in Hg.
+  assert (Hv : val_typed (opt a (fs_opts m))).
+  { destruct Ha as [<-|[<-|[]]]; [exact (val_typed_enc _ Henc) | exact (val_typed_version _ Hk)]. }
+  destruct (opt a (fs_opts m)) as [y|]; [|discriminate Hg]. cbn [option_map] in Hg. injection Hg as <-. exact Hv.
+Qed.
+
+Lemma Forall_snoc {A} : forall (P : A -> Prop) l x, Forall P (l ++ [x]) <-> Forall P l /\ P x.
+Proof.
+  intros P l x. rewrite Forall_app. split; intros [H1 H2]; split; auto.
+  - inversion H2; assumption.
+Qed.
+
+Lemma G_tree_T : forall O p M cs, typed_opts O = true -> enc_okb (kw O "encoding") = true ->
+  G_p p -> G_m M -> Forall G_change cs -> G_tree (T O p M cs).
+Proof. intros. unfold G_tree, T. cbn [d_opts d_pre d_meta d_changes]. auto. Qed.
+Lemma G_change_C : forall co cp cm fs, G_o co -> G_p cp -> G_m cm -> Forall G_file fs -> G_change (Ch co cp cm fs).
+Proof. intros. unfold G_change, Ch. cbn [c_opts c_pre c_meta c_files]. auto. Qed.
+Lemma G_file_F : forall fo fm fd, G_o fo -> G_m fm -> G_d fd -> G_file (Fi fo fm fd).
+Proof. intros. unfold G_file, Fi. cbn [f_opts f_meta f_diff]. auto. Qed.
+
+(* one section keeps the tree in the domain *)
+Lemma step_good : forall prev x s t,
+  wf_section prev x s = true -> sec_writable s = true -> sec_content_final s = true ->
+  Shape (depth_of prev) t -> G_tree t -> G_tree (tof_step t s).
+Proof.
+  intros prev x s t Hwf Hw Hfin Hsh (O1 & O2 & GP & GM & GC).
+  unfold sec_writable in Hw. rewrite !andb_true_iff in Hw. destruct Hw as [[[[[Hacc Hkn] Hle] Hch] _] _].
+  destruct (wf_parts _ _ _ Hwf) as (Hord & _ & Henc & _).
+  pose proof (wf_payload _ _ _ Hwf) as Hpay.
+  unfold sec_accepts in Hacc. unfold tof_step.
+  destruct (fs_id s) eqn:Eid; cbn [sid_kind] in Hpay.
+  - (* Main *)
+    destruct prev as [a|]; [destruct a; discriminate Hord|].
+    apply G_tree_T; try assumption; [exact (G_main_opts s x Hwf Eid Hkn)|].
+    rewrite kw_dopts, (enc_wval _ Henc). exact (enc_okb_wenc _ Henc).
+  - destruct (sec_payload s) as [|txt| |] eqn:Ep; try discriminate Hacc.
+    apply G_tree_T; try assumption.
+    apply (G_sec_psec prev x s txt); auto. rewrite Eid; reflexivity.
+  - destruct Hpay as [j Ep].
+    apply G_tree_T; try assumption.
+    apply (G_sec_msec prev x s j); auto. rewrite Eid; reflexivity.
+  - (* Change *)
+    assert (Hki : keys_in (fs_opts s) ["encoding"] = true) by (unfold sec_opts_known in Hkn; rewrite Eid in Hkn; exact Hkn).
+    rewrite (change_of_known s Hki Henc). cbn [res_or].
+    apply G_tree_T; try assumption.
+    apply Forall_snoc. split; [exact GC|].
+    apply G_change_C; [exact (G_enc_dopts _ Henc) | exact G_new_psec | exact G_new_msec | constructor].
+  - (* ChangePreamble *)
+    destruct (sec_payload s) as [|txt| |] eqn:Ep; try discriminate Hacc.
+    assert (Hd : 1 <= depth_of prev) by (destruct prev as [[]|]; try discriminate Hord; cbn; lia).
+    destruct (Shape_change _ _ Hd Hsh) as (cs & c & Ecs).
+    unfold on_last_change. rewrite Ecs, map_last_app.
+    rewrite Ecs in GC. apply Forall_snoc in GC. destruct GC as [GC1 (C1 & C2 & C3 & C4)].
+    apply G_tree_T; try assumption. apply Forall_snoc. split; [exact GC1|].
+    apply G_change_C; try assumption.
+    apply (G_sec_psec prev x s txt); auto. rewrite Eid; reflexivity.
+  - (* ChangeMeta *)
+    destruct Hpay as [j Ep].
+    assert (Hd : 1 <= depth_of prev) by (destruct prev as [[]|]; try discriminate Hord; cbn; lia).
+    destruct (Shape_change _ _ Hd Hsh) as (cs & c & Ecs).
+    unfold on_last_change. rewrite Ecs, map_last_app.
+    rewrite Ecs in GC. apply Forall_snoc in GC. destruct GC as [GC1 (C1 & C2 & C3 & C4)].
+    apply G_tree_T; try assumption. apply Forall_snoc. split; [exact GC1|].
+    apply G_change_C; try assumption.
+    apply (G_sec_msec prev x s j); auto. rewrite Eid; reflexivity.
+  - (* File *)
+    assert (Hd : 1 <= depth_of prev) by (destruct prev as [[]|]; try discriminate Hord; cbn; lia).
+    destruct (Shape_change _ _ Hd Hsh) as (cs & c & Ecs).
+    assert (Hki : keys_in (fs_opts s) ["encoding"] = true) by (unfold sec_opts_known in Hkn; rewrite Eid in Hkn; exact Hkn).
+    rewrite (file_of_known s Hki Henc). cbn [res_or].
+    unfold on_last_change. rewrite Ecs, map_last_app.
+    rewrite Ecs in GC. apply Forall_snoc in GC. destruct GC as [GC1 (C1 & C2 & C3 & C4)].
+    apply G_tree_T; try assumption. apply Forall_snoc. split; [exact GC1|].
+    apply G_change_C; try assumption.
+    apply Forall_snoc. split; [exact C4|].
+    apply G_file_F; [exact (G_enc_dopts _ Henc) | exact G_new_msec | exact G_new_dsec].
+  - (* FileMeta *)
+    destruct Hpay as [j Ep].
+    assert (Hsh2 : exists cs co cp cm fs f, d_changes t = cs ++ [Ch co cp cm (fs ++ [f])])
+      by (destruct prev as [[]|]; try discriminate Hord; exact Hsh).
+    destruct Hsh2 as (cs & co & cp & cm & fs & f & Ecs).
+    unfold on_last_file, on_last_change. rewrite Ecs, map_last_app. cbv beta.
+    unfold Ch. cbn [c_opts c_pre c_meta c_files]. rewrite map_last_app. cbv beta.
+    rewrite Ecs in GC. apply Forall_snoc in GC. destruct GC as [GC1 (C1 & C2 & C3 & C4)].
+    unfold Ch in C1, C2, C3, C4. cbn [c_opts c_pre c_meta c_files] in C1, C2, C3, C4.
+    apply Forall_snoc in C4. destruct C4 as [F0 (F1 & F2 & F3)].
+    apply G_tree_T; try assumption. apply Forall_snoc. split; [exact GC1|].
+    apply G_change_C; try assumption.
+    apply Forall_snoc. split; [exact F0|]. apply G_file_F; try assumption.
+    apply (G_sec_msec prev x s j); auto. rewrite Eid; reflexivity.
+  - (* FileDiff *)
+    destruct Hpay as [b Ep].
+    assert (Hsh2 : exists cs co cp cm fs f, d_changes t = cs ++ [Ch co cp cm (fs ++ [f])])
+      by (destruct prev as [[]|]; try discriminate Hord; exact Hsh).
+    destruct Hsh2 as (cs & co & cp & cm & fs & f & Ecs).
+    unfold on_last_file, on_last_change. rewrite Ecs, map_last_app. cbv beta.
+    unfold Ch. cbn [c_opts c_pre c_meta c_files]. rewrite map_last_app. cbv beta.
+    rewrite Ecs in GC. apply Forall_snoc in GC. destruct GC as [GC1 (C1 & C2 & C3 & C4)].
+    unfold Ch in C1, C2, C3, C4. cbn [c_opts c_pre c_meta c_files] in C1, C2, C3, C4.
+    apply Forall_snoc in C4. destruct C4 as [F0 (F1 & F2 & F3)].
+    apply G_tree_T; try assumption. apply Forall_snoc. split; [exact GC1|].
+    apply G_change_C; try assumption.
+    apply Forall_snoc. split; [exact F0|]. apply G_file_F; try assumption.
+    apply (G_sec_dsec prev x s b); auto. rewrite Eid; reflexivity.
+Qed.
+
+Lemma G_new_tree : G_tree new_tree.
+Proof.
+  split; [vm_compute; reflexivity|]. split; [vm_compute; reflexivity|].
+  split; [exact G_new_psec|]. split; [exact G_new_msec | constructor].
+Qed.
+
+Lemma good_secs : forall ss prev x t,
+  wf_secs prev x ss = true -> forallb sec_writable ss = true -> forallb sec_content_final ss = true ->
+  Shape (depth_of prev) t -> G_tree t -> G_tree (tree_of_secs t ss).
+Proof.
+  induction ss as [|s ss IH]; intros prev x t Hwf Hw Hfin Hsh HG; [exact HG|].
+  cbn [wf_secs forallb] in *. apply andb_true_iff in Hwf, Hw, Hfin.
+  destruct Hwf as [Hs Hss], Hw as [W1 W2], Hfin as [F1 F2].
+  cbn [tree_of_secs fold_left].
+  apply (IH (Some (fs_id s)) (ectx_next x s) (tof_step t s) Hss W2 F2).
+  - exact (step_shape prev x s t Hs Hsh).
+  - exact (step_good prev x s t Hs W1 F1 Hsh HG).
+Qed.
+
+(* the tree read from a well-formed foreign file is in the domain of C05_full / C06_full, and normalising it does
+   not change the contents of any section *)
+Theorem foreign_domain : forall f,
+  wf_file f = true -> dom_accepts f = true -> opts_known f = true -> no_meta_line_endings f = true ->
+  choice_values_ok f = true -> sub_metas_nonempty f = true -> metas_plain f = true -> contents_final f = true ->
+  typed_tree (tree_of_file f) = true /\ tree_encs_ok (tree_of_file f) = true /\
+  tree_indents_ok (tree_of_file f) = true /\ same_contents (tree_of_file f) (normalise (tree_of_file f)).
+Proof.
+  intros f Hwf Hacc Hkn Hle Hch Hne Hpl Hfin. apply G_tree_facts.
+  pose proof (secs_writable f Hacc Hkn Hle Hch Hne Hpl) as Hw.
+  unfold wf_file in Hwf. apply andb_true_iff in Hwf. destruct Hwf as [Hsecs _].
+  exact (good_secs (ff_sections f) None ectx0 new_tree Hsecs Hw Hfin I G_new_tree).
+Qed.
+
+(* (B)+(C)+(D), for the tree [tree_of_file f] *)
+Theorem foreign_reserialise : forall f orc,
+  wf_file f = true -> dom_accepts f = true -> opts_known f = true -> no_meta_line_endings f = true ->
+  choice_values_ok f = true -> sub_metas_nonempty f = true -> metas_plain f = true -> contents_final f = true ->
+  let t := tree_of_file f in
+  exists b, dom_write t = Ok b /\ same_contents t (normalise t) /\
+    (tree_oracle_ok orc t -> tree_metas_oracle_ok orc t -> tree_guesses_ok t ->
+     (Z.of_nat (length b) <= sys_maxsize)%Z ->
+     dom_read orc b = Ok (normalise t) /\ dom_write (normalise t) = Ok b /\
+     normalise (normalise t) = normalise t /\
+     (forall b', dom_write (normalise t) = Ok b' -> dom_read orc b' = Ok (normalise t))).
+Proof.
+  intros f orc Hwf Hacc Hkn Hle Hch Hne Hpl Hfin t.
+  destruct (foreign_writes f Hwf Hacc Hkn Hle Hch Hne Hpl) as [b Hb].
+  destruct (foreign_domain f Hwf Hacc Hkn Hle Hch Hne Hpl Hfin) as (Ht & He & Hi & Hsame).
+  exists b. split; [exact Hb|]. split; [exact Hsame|].
+  intros Ho Hm Hg Hsz.
+  destruct (C06_full orc t b Ht He Hi Hb Ho Hm Hg Hsz) as (t' & R1 & -> & R3 & R4 & R5).
+  repeat split; assumption.
+Qed.
+
+(* ================================================================================================ *)
+(** * Instances *)
+
+Import SpecReaderExamples.
+
+(* a file of another producer that satisfies every premise: CRLF header lines, options in any order, blank and
+   whitespace-only lines, an indented utf-8-sig preamble with byte order mark and undeclared DOS line endings,
+   compact JSON, an empty main .meta (dropped on re-serialisation), a ..file that switches to latin-1, a diff
+   with declared line endings *)
+Definition fx_good : ffile :=
+  {| ff_crlf := true;
+     ff_sections :=
+       [ {| fs_id := Main; fs_opts := [(B "version", B "1.0"); (B "encoding", B "utf-8")];
+            fs_blank := []; fs_content := None |};
+         {| fs_id := MainPreamble;
+            fs_opts := [(B "length", B "20"); (B "mimetype", B "text/markdown"); (B "indent", B "2");
+                        (B "encoding", B "utf-8-sig")];
+            fs_blank := [[]; B "  "];
+            fs_content := Some (FText {| tc_lines := [asc "hello"; asc " w" ++ [233%N]]; tc_kind := LDos; tc_bom := true |}) |};
+         {| fs_id := MainMeta; fs_opts := [(B "length", B "3")]; fs_blank := [];
+            fs_content := Some (FMeta {| tc_lines := [asc "{}"]; tc_kind := LUnix; tc_bom := false |} (JObj [])) |};
+         {| fs_id := Change; fs_opts := []; fs_blank := [B " "]; fs_content := None |};
+         {| fs_id := ChangeMeta; fs_opts := [(B "length", B "8"); (B "format", B "json")]; fs_blank := [];
+            fs_content := Some (FMeta {| tc_lines := [[123%N; dq; 99%N; dq] ++ asc ":1}"]; tc_kind := LUnix; tc_bom := false |}
+                                      (JObj [(asc "c", JInt 1)])) |};
+         {| fs_id := File; fs_opts := [(B "encoding", B "latin-1")]; fs_blank := []; fs_content := None |};
+         {| fs_id := FileMeta; fs_opts := [(B "format", B "json"); (B "length", B "8")]; fs_blank := [];
+            fs_content := Some (FMeta {| tc_lines := [[123%N; dq; 107%N; dq] ++ asc ":2}"]; tc_kind := LUnix; tc_bom := false |}
+                                      (JObj [(asc "k", JInt 2)])) |};
+         {| fs_id := FileDiff; fs_opts := [(B "type", B "text"); (B "length", B "6"); (B "line_endings", B "unix")];
+            fs_blank := [[]];
+            fs_content := Some (FDiff (B "-a" ++ [x0a] ++ B "+b" ++ [x0a]) LUnix) |} ];
+     ff_trailing := [[]; B " "] |}.
+
+Definition fx_dumped (j : json) : text := match json_dump j with Ok d => ascii_text d ++ [10%N] | Err _ => [] end.
+Definition fx_orc : oracle :=
+  [ (oracle_key_text (asc "{}" ++ [10%N]), LoadsOk (JObj []));
+    (oracle_key_text ([123%N; dq; 99%N; dq] ++ asc ":1}" ++ [10%N]), LoadsOk (JObj [(asc "c", JInt 1)]));
+    (oracle_key_text ([123%N; dq; 107%N; dq] ++ asc ":2}" ++ [10%N]), LoadsOk (JObj [(asc "k", JInt 2)]));
+    (oracle_key_text (fx_dumped (JObj [(asc "c", JInt 1)])), LoadsOk (JObj [(asc "c", JInt 1)]));
+    (oracle_key_text (fx_dumped (JObj [(asc "k", JInt 2)])), LoadsOk (JObj [(asc "k", JInt 2)])) ].
+
+Example fx_good_premises :
+  wf_file fx_good = true /\ dom_accepts fx_good = true /\ opts_known fx_good = true /\
+  no_meta_line_endings fx_good = true /\ choice_values_ok fx_good = true /\ sub_metas_nonempty fx_good = true /\
+  metas_plain fx_good = true /\ contents_final fx_good = true.
+Proof. vm_compute. repeat split. Qed.
+
+Example fx_good_oracle : oracle_ok_file fx_orc fx_good.
+Proof. unfold oracle_ok_file. repeat (constructor; [vm_compute; first [exact I | reflexivity]|]). constructor. Qed.
+
+Example fx_good_size : (Z.of_nat (length (render_file fx_good)) <= sys_maxsize)%Z.
+Proof. vm_compute. discriminate. Qed.
+
+Example fx_good_read : dom_read fx_orc (render_file fx_good) = Ok (tree_of_file fx_good).
+Proof. vm_compute. reflexivity. Qed.
+
+Example fx_good_tree_hyps :
+  tree_oracle_ok fx_orc (tree_of_file fx_good) /\ tree_metas_oracle_ok fx_orc (tree_of_file fx_good) /\
+  tree_guesses_ok (tree_of_file fx_good).
+Proof.
+  split; [oracle_tac|]. split.
+  - apply tree_metas_oracle_main. vm_compute. reflexivity.
+  - apply tree_guesses_aligned. vm_compute. reflexivity.
+Qed.
+
+(* what the object model writes for it *)
+Definition fx_good_bytes : bytes :=
+  B "#diffx: encoding=utf-8, version=1.0" ++ nl ++
+  B "#.preamble: encoding=utf-8-sig, indent=2, length=20, line_endings=dos, mimetype=text/markdown" ++ nl ++
+  B "  " ++ [xef; xbb; xbf] ++ B "hello" ++ cr ++ nl ++
+  B "   w" ++ [xc3; xa9] ++ cr ++ nl ++
+  B "#.change:" ++ nl ++
+  B "#..meta: format=json, length=15" ++ nl ++
+  B "{" ++ nl ++ B "    " ++ [x22] ++ B "c" ++ [x22] ++ B ": 1" ++ nl ++ B "}" ++ nl ++
+  B "#..file: encoding=latin-1" ++ nl ++
+  B "#...meta: format=json, length=15" ++ nl ++
+  B "{" ++ nl ++ B "    " ++ [x22] ++ B "k" ++ [x22] ++ B ": 2" ++ nl ++ B "}" ++ nl ++
+  B "#...diff: length=6, line_endings=unix, type=text" ++ nl ++
+  B "-a" ++ nl ++ B "+b" ++ nl.
+
+Example fx_good_writes : dom_write (tree_of_file fx_good) = Ok fx_good_bytes.
+Proof. vm_compute. reflexivity. Qed.
+
+(** ** each premise is needed: well-formed files the object model reads and cannot re-serialise *)
+
+Definition mainsec : fsection :=
+  {| fs_id := Main; fs_opts := [(B "encoding", B "utf-8"); (B "version", B "1.0")]; fs_blank := []; fs_content := None |}.
+Definition metasec (a : sid) (opts : list (bytes * bytes)) (txt : text) (j : json) : fsection :=
+  {| fs_id := a; fs_opts := opts; fs_blank := [];
+     fs_content := Some (FMeta {| tc_lines := [txt]; tc_kind := LUnix; tc_bom := false |} j) |}.
+Definition contsec (a : sid) : fsection := {| fs_id := a; fs_opts := []; fs_blank := []; fs_content := None |}.
+Definition file_of_secs (ss : list fsection) : ffile := {| ff_crlf := false; ff_sections := ss; ff_trailing := [] |}.
+
+Definition txt_a1 : text := [123%N; dq; 97%N; dq] ++ asc ":1}".       (* {"a":1} *)
+Definition obj_a1 : json := JObj [(asc "a", JInt 1)].
+Definition rx_orc : oracle :=
+  [ (oracle_key_text (asc "{}" ++ [10%N]), LoadsOk (JObj []));
+    (oracle_key_text (txt_a1 ++ [10%N]), LoadsOk obj_a1) ].
+
+(* finding D15: a metadata section that declares line_endings *)
+Definition rx_meta_le : ffile :=
+  file_of_secs [mainsec; metasec MainMeta [(B "format", B "json"); (B "length", B "8"); (B "line_endings", B "unix")] txt_a1 obj_a1].
+(* an empty ...meta followed by a diff; an empty ..meta followed by another .change *)
+Definition rx_empty_file_meta : ffile :=
+  file_of_secs [mainsec; contsec Change; contsec File; metasec FileMeta [(B "format", B "json"); (B "length", B "3")] (asc "{}") (JObj []);
+                {| fs_id := FileDiff; fs_opts := [(B "length", B "2")]; fs_blank := [];
+                   fs_content := Some (FDiff (B "a" ++ [x0a]) LUnix) |}].
+Definition rx_empty_change_meta : ffile :=
+  file_of_secs [mainsec; contsec Change; metasec ChangeMeta [(B "length", B "3")] (asc "{}") (JObj []);
+                contsec Change; metasec ChangeMeta [(B "length", B "8")] txt_a1 obj_a1].
+(* an option the specification does not define, on a content section and on the main header *)
+Definition rx_unknown_main : ffile :=
+  file_of_secs [{| fs_id := Main; fs_opts := [(B "encoding", B "utf-8"); (B "version", B "1.0"); (B "x-tool", B "1")];
+                   fs_blank := []; fs_content := None |};
+                metasec MainMeta [(B "length", B "8")] txt_a1 obj_a1].
+(* a mimetype outside the specification's list *)
+Definition rx_mimetype : ffile :=
+  file_of_secs [mainsec;
+                {| fs_id := MainPreamble; fs_opts := [(B "length", B "2"); (B "mimetype", B "text/html")]; fs_blank := [];
+                   fs_content := Some (FText {| tc_lines := [asc "a"]; tc_kind := LUnix; tc_bom := false |}) |}].
+
+Definition other_premises (f : ffile) : bool * bool * bool * bool * bool * bool :=
+  (opts_known f, no_meta_line_endings f, choice_values_ok f, sub_metas_nonempty f, metas_plain f, contents_final f).
+
+Definition reads_but_fails (f : ffile) (e : exn) : Prop :=
+  wf_file f = true /\ oracle_ok_file rx_orc f /\ dom_read rx_orc (render_file f) = Ok (tree_of_file f) /\
+  dom_write (tree_of_file f) = Err e.
+
+Ltac refute_tac :=
+  split; [vm_compute; reflexivity|];
+  split; [unfold oracle_ok_file; repeat (constructor; [vm_compute; first [exact I | reflexivity]|]); constructor|];
+  split; vm_compute; reflexivity.
+
+Example meta_line_endings_refuted :
+  reads_but_fails rx_meta_le EType /\ other_premises rx_meta_le = (true, false, true, true, true, true).
+Proof. split; [refute_tac | vm_compute; reflexivity]. Qed.
+
+Example empty_file_meta_refuted :
+  reads_but_fails rx_empty_file_meta ELibOrder /\ other_premises rx_empty_file_meta = (true, true, true, false, true, true).
+Proof. split; [refute_tac | vm_compute; reflexivity]. Qed.
+
+Example empty_change_meta_refuted :
+  reads_but_fails rx_empty_change_meta ELibOrder /\ other_premises rx_empty_change_meta = (true, true, true, false, true, true).
+Proof. split; [refute_tac | vm_compute; reflexivity]. Qed.
+
+Example unknown_option_refuted :
+  reads_but_fails rx_unknown_main EType /\ other_premises rx_unknown_main = (false, true, true, true, true, true).
+Proof. split; [refute_tac | vm_compute; reflexivity]. Qed.
+
+Example unknown_content_option_refuted :
+  wf_file sx_foreign = true /\ dom_read sx_foreign_orc (render_file sx_foreign) = Ok (tree_of_file sx_foreign) /\
+  opts_known sx_foreign = false /\ dom_write (tree_of_file sx_foreign) = Err EType.
+Proof. repeat split; vm_compute; reflexivity. Qed.
+
+Example mimetype_refuted :
+  reads_but_fails rx_mimetype ELibChoice /\ other_premises rx_mimetype = (true, true, false, true, true, true).
+Proof. split; [refute_tac | vm_compute; reflexivity]. Qed.
+
+(* a preamble with no encoding in force is read as bytes: the object model rejects the file *)
+Example raw_preamble_rejected :
+  wf_file sx_mixed = true /\ dom_accepts sx_mixed = false /\
+  dom_read sx_mixed_orc (render_file sx_mixed) = Err ELibParse.
+Proof. repeat split; vm_compute; reflexivity. Qed.
+
+(* ================================================================================================ *)
+(** * [contents_final] follows from [wf_file] *)
+
+(* diffs: the bytes end with the newline the writer's own preparation determines *)
+Lemma diff_final_wf : forall prev x s b, wf_section prev x s = true -> sid_kind (fs_id s) = SDiff ->
+  sec_payload s = PBytes b -> sec_content_final s = true.
+Proof.
+  intros prev x s b Hwf Hk Hp.
+  destruct (wf_parts _ _ _ Hwf) as (_ & _ & Henc & _).
+  destruct (wf_diff_bytes _ _ _ _ Hwf Hk Hp) as (k & _ & Hdok).
+  pose proof (diff_bytes_nonempty _ _ _ _ Hwf Hk Hp) as Hne.
+  unfold sec_content_final. rewrite Hk, Hp.
+  unfold diff_ok in Hdok. destruct (diff_codec s) as [cd|] eqn:Ecd; [|discriminate Hdok].
+  rewrite !andb_true_iff in Hdok. destruct Hdok as [[[_ Hends] Hle] _].
+  unfold diff_codec in Ecd. set (eb := diff_spelling s) in *.
+  destruct (SpecReaderCodec.codec_laws_x eb cd Ecd) as (bom & enc0 & laws & _).
+  destruct (SpecReaderContent.nl_bytes_laws eb cd bom enc0 laws k) as (Enl & _).
+  (* the encoding argument *)
+  assert (Harg : RoundTripContent.diff_enc_arg eb bom (wopt "encoding" s)).
+  { rewrite (wopt_enc s Henc). unfold eb, diff_spelling in *.
+    destruct (enc_opt_cases _ Henc) as [E|(e & c & E & Hc)]; rewrite E in *.
+    - constructor; [reflexivity|].
+      rewrite <- (SpecReaderCodec.enc_bom_of_laws _ _ _ _ laws).
+      rewrite SpecReaderContent.ascii_codec in Ecd. injection Ecd as <-. reflexivity.
+    - constructor. unfold codec_of in Hc. destruct (lookup_codec e) as [canon c'| |] eqn:El; try discriminate Hc.
+      apply (RoundTripSim.spelling_facts e canon c' El). }
+  (* the line_endings argument *)
+  assert (Hlev : RoundTripContent.le_arg (wopt "line_endings" s) /\
+                 (wopt "line_endings" s = WNone /\
+                  detect_kind (nl_bytes cd LUnix) (nl_bytes cd LDos) b = k \/
+                  wopt "line_endings" s = WStr (ascii_text (le_name k)))).
+  { unfold wopt. rewrite kw_copts by discriminate. unfold le_ok in Hle.
+    destruct (opt "line_endings" (fs_opts s)) as [v|].
+    - apply beq_eq in Hle. subst v. cbn [wval]. rewrite SpecReaderBase.le_name_conv. cbn [wv_of_pv].
+      split; [constructor; apply SpecReaderContent.le_values | right; reflexivity].
+    - split; [constructor | left; split; [reflexivity | apply SpecReaderContent.le_kind_eqb_eq; exact Hle]]. }
+  destruct Hlev as [Hla Hcase].
+  destruct (RoundTripContent.diff_round_trip eb cd bom enc0 laws no_state b _ _ Hne Hla Harg)
+    as (body & le & nlb & lines & Hin & Hnlb & Hg & Hd & Hbody & _ & Hprep & _).
+  assert (Enlb : nlb = nl_bytes cd k).
+  { destruct Hcase as [[E Hdet] | E].
+    - specialize (Hg E). rewrite (SpecReaderContent.guess_detect eb cd bom enc0 laws b), Hdet in Hg. congruence.
+    - specialize (Hd (le_name k) E (SpecReaderContent.le_values k)). subst le.
+      rewrite SpecReaderContent.nl_text_le in Hnlb. congruence. }
+  unfold diff_prepared, diff_prepare. rewrite Hprep. cbn [fst]. rewrite Hbody, Enlb, Hends. apply beq_eq. reflexivity.
+Qed.
+
+(** ** preambles: the line ending detected on the decoded text is the one detected on the bytes *)
+
+Section FindFirst.
+  Context {A : Type} (eqb : A -> A -> bool).
+  Hypothesis eqb_spec : forall a b, eqb a b = true <-> a = b.
+
+  Lemma find_first : forall (pat : list A) n l,
+    (forall p, p < n -> prefixb eqb pat (skipn p l) = false) -> prefixb eqb pat (skipn n l) = true ->
+    find eqb pat l = Some n.
+  Proof.
+    intros pat. induction n as [|n IH]; intros l Hf Ht.
+    - apply RoundTripGuess.find_here. exact Ht.
+    - destruct l as [|y l].
+      + pose proof (Hf 0 (Nat.lt_0_succ n)) as H0. cbn [skipn] in *. congruence.
+      + pose proof (Hf 0 (Nat.lt_0_succ n)) as H0. cbn [skipn] in H0, Ht.
+        rewrite (RoundTripGuess.find_cons eqb eqb_spec pat y l H0).
+        rewrite (IH l); [reflexivity | | exact Ht].
+        intros p Hp. apply (Hf (S p)). lia.
+  Qed.
+
+  (* the first occurrence of a pattern in  S ++ (X ++ pat) ++ R  when no element of S starts the pattern and the
+     pattern occurs in X ++ pat only at the end *)
+  Lemma find_after_prefix : forall (pat S X R : list A),
+    pat <> [] -> (forall a, In a S -> forall rest, pat <> a :: rest) ->
+    occurrences eqb pat (X ++ pat) = 1 ->
+    find eqb pat (S ++ (X ++ pat) ++ R) = Some (length S + length X).
+  Proof.
+    intros pat S X R Hne HS Hocc. apply find_first.
+    - intros p Hp. destruct (Nat.lt_ge_cases p (length S)) as [Hlt | Hge].
+      + rewrite skipn_app. replace (p - length S) with 0 by lia. cbn [skipn].
+        destruct (skipn p S) as [|h tl] eqn:Es.
+        { assert (length (skipn p S) = 0) by (rewrite Es; reflexivity). rewrite skipn_length in H. lia. }
+        destruct pat as [|a pat']; [congruence|].
+        destruct (prefixb eqb (a :: pat') ((h :: tl) ++ (X ++ a :: pat') ++ R)) eqn:E; [|reflexivity].
+        apply (TextFacts.prefixb_spec eqb eqb_spec) in E. destruct E as [r E]. cbn [app] in E. injection E as E _.
+        exfalso. apply (HS h) with (rest := pat').
+        * rewrite <- (firstn_skipn p S). apply in_or_app. right. rewrite Es. left. reflexivity.
+        * subst h. reflexivity.
+      + rewrite skipn_app. rewrite skipn_all2 by lia. cbn [app].
+        set (q := p - length S). assert (Hq : q < length X) by (unfold q; lia).
+        rewrite skipn_app. replace (q - length (X ++ pat)) with 0 by (rewrite app_length; lia). cbn [skipn].
+        rewrite RoundTripContent.prefixb_app_long.
+        * apply (proj1 (TextFacts.occurrences_one_iff eqb eqb_spec pat X Hne) Hocc). exact Hq.
+        * rewrite skipn_length, app_length. lia.
+    - rewrite skipn_app. rewrite skipn_all2 by lia. cbn [app].
+      replace (length S + length X - length S) with (length X) by lia.
+      rewrite <- app_assoc, skipn_app, skipn_all, Nat.sub_diag. cbn [skipn app].
+      apply (TextFacts.prefixb_app eqb eqb_spec).
+  Qed.
+End FindFirst.
+
+Section PreFinal.
+  Variables (eb : bytes) (c : codec) (bom : bytes) (enc0 : text -> option bytes).
+  Hypothesis laws : RoundTripCodec.codec_laws eb c bom enc0.
+
+  Local Notation u := (nl_bytes c LUnix).
+  Local Notation d := (nl_bytes c LDos).
+
+  Lemma enc0_split : forall a b y, enc0 (a ++ b) = Some y ->
+    exists ya yb, enc0 a = Some ya /\ enc0 b = Some yb /\ y = ya ++ yb.
+  Proof.
+    intros a b y H. rewrite (RoundTripCodec.cl_hom _ _ _ _ laws) in H.
+    destruct (enc0 a) as [ya|]; [|discriminate H]. destruct (enc0 b) as [yb|]; [|discriminate H].
+    injection H as <-. eauto.
+  Qed.
+
+  Lemma enc0_lf : enc0 [10%N] = Some u.
+  Proof. exact (proj1 (SpecReaderContent.nl_bytes_laws eb c bom enc0 laws LUnix)). Qed.
+  Lemma enc0_crlf : enc0 [13%N; 10%N] = Some d.
+  Proof. exact (proj1 (SpecReaderContent.nl_bytes_laws eb c bom enc0 laws LDos)). Qed.
+
+  (* a line of a unix-kind text whose pieces are clean contains no LF *)
+  Lemma clean_no_lf : forall mark l0,
+    encodable c (le_text LUnix) l0 = true ->
+    occurrences byte_eqb u (mark ++ enc_line c (le_text LUnix) l0) = 1 -> ~ In 10%N l0.
+  Proof.
+    intros mark l0 Henc Hocc Hin.
+    destruct (SpecReaderContent.encodable_line eb c bom enc0 laws LUnix l0 Henc) as [E1 E2].
+    destruct (SpecReaderContent.nl_bytes_laws eb c bom enc0 laws LUnix) as (_ & Hne & _).
+    destruct (enc0_split l0 (le_text LUnix) _ E1) as (y0 & yn & Ey0 & _ & _).
+    apply in_split in Hin. destruct Hin as (a & b & ->).
+    destruct (enc0_split a (10%N :: b) _ Ey0) as (ya & yr & _ & Eyr & ->).
+    change (10%N :: b) with ([10%N] ++ b) in Eyr.
+    destruct (enc0_split [10%N] b _ Eyr) as (yu & yb & Eu & _ & ->).
+    rewrite enc0_lf in Eu. injection Eu as <-.
+    rewrite E2 in Hocc. unfold SpecReaderContent.ql in Hocc. rewrite Ey0 in Hocc.
+    replace (mark ++ (ya ++ u ++ yb) ++ u) with ((mark ++ ya ++ u ++ yb) ++ u) in Hocc
+      by (rewrite <- !app_assoc; reflexivity).
+    pose proof (proj1 (TextFacts.occurrences_one_iff byte_eqb TextFacts.byte_eqb_spec u _ Hne) Hocc (length (mark ++ ya))) as Hf.
+    assert (Hlt : length (mark ++ ya) < length (mark ++ ya ++ u ++ yb)).
+    { rewrite !app_length. destruct (nl_bytes c LUnix); [congruence | cbn; lia]. }
+    specialize (Hf Hlt).
+    replace ((mark ++ ya ++ u ++ yb) ++ u) with ((mark ++ ya) ++ u ++ yb ++ u) in Hf
+      by (rewrite <- !app_assoc; reflexivity).
+    rewrite skipn_app, skipn_all, Nat.sub_diag in Hf. cbn [skipn app] in Hf.
+    rewrite (TextFacts.prefixb_app byte_eqb TextFacts.byte_eqb_spec) in Hf. discriminate Hf.
+  Qed.
+
+  (* unix-kind text, line endings not declared: if the detection on the bytes says unix, so does the detection on
+     the text *)
+  Lemma unix_text_guess : forall mark n l0 ls,
+    forallb (encodable c (le_text LUnix)) (l0 :: ls) = true ->
+    lines_clean u (text_pieces c (le_text LUnix) mark (l0 :: ls)) = true ->
+    detect_kind u d (text_body c (le_text LUnix) mark n (l0 :: ls)) = LUnix ->
+    snd (guess_line_endings_text (concat (map (fun l => l ++ le_text LUnix) (l0 :: ls)))) = [10%N].
+  Proof.
+    intros mark n l0 ls Henc Hclean Hdet.
+    cbn [forallb] in Henc. apply andb_true_iff in Henc. destruct Henc as [H0 _].
+    cbn [text_pieces lines_clean forallb] in Hclean. apply andb_true_iff in Hclean. destruct Hclean as [Hc0 _].
+    apply Nat.eqb_eq in Hc0.
+    pose proof (clean_no_lf mark l0 H0 Hc0) as Hnolf.
+    destruct (SpecReaderContent.encodable_line eb c bom enc0 laws LUnix l0 H0) as [E1 E2].
+    destruct (SpecReaderContent.nl_bytes_laws eb c bom enc0 laws LUnix) as (_ & Hne & _ & Hx20 & _).
+    cbn [map concat]. change (le_text LUnix) with [10%N]. rewrite <- app_assoc. cbn [app].
+    unfold guess_line_endings_text. change (nl_text GenText.le_unix) with [10%N]. change (nl_text GenText.le_dos) with [13%N; 10%N].
+    cbv zeta.
+    rewrite (RoundTripGuess.find_one_first N.eqb RoundTripCodec.N_eqb_spec 10%N l0 _ Hnolf).
+    replace (firstn (length l0 + length [10%N]) (l0 ++ 10%N :: concat (map (fun l => l ++ [10%N]) ls))) with (l0 ++ [10%N]).
+    2:{ change (l0 ++ 10%N :: concat (map (fun l => l ++ [10%N]) ls)) with (l0 ++ [10%N] ++ concat (map (fun l => l ++ [10%N]) ls)).
+        rewrite app_assoc, firstn_app. rewrite <- app_length, Nat.sub_diag, firstn_all. cbn [firstn]. rewrite app_nil_r. reflexivity. }
+    destruct (suffixb N.eqb [13%N; 10%N] (l0 ++ [10%N])) eqn:Es; [|reflexivity]. exfalso.
+    (* the first line ends with CR: the bytes say dos *)
+    apply (TextFacts.suffixb_spec N.eqb RoundTripCodec.N_eqb_spec) in Es. destruct Es as [q Eq].
+    change [13%N; 10%N] with ([13%N] ++ [10%N]) in Eq. rewrite app_assoc in Eq. apply app_inj_tail in Eq. destruct Eq as [-> _].
+    destruct (enc0_split (q ++ [13%N]) (le_text LUnix) _ E1) as (y0 & yn & Ey0 & _ & _).
+    destruct (enc0_split q [13%N] _ Ey0) as (yq & ycr & _ & Ecr & ->).
+    assert (Ed : d = ycr ++ u).
+    { pose proof enc0_crlf as Hd. change [13%N; 10%N] with ([13%N] ++ [10%N]) in Hd.
+      destruct (enc0_split _ _ _ Hd) as (a1 & a2 & A1 & A2 & ->). rewrite Ecr in A1. rewrite enc0_lf in A2. congruence. }
+    rewrite E2 in Hc0. unfold SpecReaderContent.ql in Hc0, E2. rewrite Ey0 in Hc0, E2.
+    set (X := mark ++ yq ++ ycr) in *.
+    assert (Epiece : mark ++ enc_line c (le_text LUnix) (q ++ [13%N]) = X ++ u) by (rewrite E2; unfold X; rewrite <- !app_assoc; reflexivity).
+    replace (mark ++ (yq ++ ycr) ++ u) with (X ++ u) in Hc0 by (unfold X; rewrite <- !app_assoc; reflexivity).
+    unfold detect_kind, text_body in Hdet. cbn [text_pieces map concat] in Hdet. rewrite Epiece in Hdet.
+    set (R := concat (map (app (repeat_b x20 n)) (map (enc_line c (le_text LUnix)) ls))) in *.
+    replace (repeat_b x20 n ++ X ++ u) with (repeat_b x20 n ++ (X ++ u)) in Hdet by reflexivity.
+    rewrite <- app_assoc in Hdet.
+    unfold bfind in Hdet.
+    rewrite (find_after_prefix byte_eqb TextFacts.byte_eqb_spec u (repeat_b x20 n) X R Hne) in Hdet.
+    - assert (Efn : forall (S0 X0 U0 R0 : bytes),
+                firstn (length S0 + length X0 + length U0) (S0 ++ (X0 ++ U0) ++ R0) = S0 ++ X0 ++ U0).
+      { intros S0 X0 U0 R0. replace (length S0 + length X0 + length U0) with (length (S0 ++ X0 ++ U0))
+          by (rewrite !app_length; lia).
+        rewrite (app_assoc S0 (X0 ++ U0) R0). rewrite firstn_app, Nat.sub_diag, firstn_all. cbn [firstn]. apply app_nil_r. }
+      rewrite Efn in Hdet.
+      assert (Hb : bends d (repeat_b x20 n ++ X ++ u) = true).
+      { rewrite Ed. unfold X, bends.
+        replace (repeat_b x20 n ++ (mark ++ yq ++ ycr) ++ u) with ((repeat_b x20 n ++ mark ++ yq) ++ ycr ++ u)
+          by (rewrite <- !app_assoc; reflexivity).
+        apply (TextFacts.suffixb_app byte_eqb TextFacts.byte_eqb_spec). }
+      rewrite Hb in Hdet. discriminate Hdet.
+    - intros a Ha rest E. apply RoundTripContent.in_repeat_b in Ha. subst a. apply Hx20. rewrite E. left. reflexivity.
+    - exact Hc0.
+  Qed.
+End PreFinal.
+
+Lemma pre_resolve_declared : forall k t,
+  pre_resolve (WStr (ascii_text (le_name k))) t = (WStr (ascii_text (le_name k)), le_text k).
+Proof. intros [] t; reflexivity. Qed.
+
+Lemma final_text_suffix : forall nl t, suffixb N.eqb nl t = true -> final_text nl t = t.
+Proof. intros nl t H. unfold final_text. rewrite H. reflexivity. Qed.
+
+Lemma suffix_crlf_lf : forall t, suffixb N.eqb [13%N; 10%N] t = true -> suffixb N.eqb [10%N] t = true.
+Proof.
+  intros t H. apply (TextFacts.suffixb_spec N.eqb RoundTripCodec.N_eqb_spec) in H. destruct H as [q ->].
+  change [13%N; 10%N] with ([13%N] ++ [10%N]). rewrite app_assoc.
+  apply (TextFacts.suffixb_app N.eqb RoundTripCodec.N_eqb_spec).
+Qed.
+
+Lemma pre_final_wf : forall prev x s txt, wf_section prev x s = true -> sid_kind (fs_id s) = SPreamble ->
+  sec_payload s = PText txt -> sec_content_final s = true.
+Proof.
+  intros prev x s txt Hwf Hk Hp.
+  destruct (wf_pre_text _ _ _ _ Hwf Hk Hp) as (t & Econt & Etxt & Htok & _).
+  unfold sec_content_final. rewrite Hk, Hp.
+  apply DomFacts.teq_eq. apply final_text_suffix.
+  unfold text_ok in Htok. destruct (text_codec x s) as [cd|] eqn:Ecd; [|discriminate Htok].
+  rewrite !andb_true_iff in Htok. destruct Htok as [[[[[T1 T2] _] T4] T5] _].
+  assert (Ebody : content_body x s = text_body cd (le_text (tc_kind t)) (tc_mark cd t) (indent_of s) (tc_lines t))
+    by (unfold content_body; rewrite Econt, Ecd; reflexivity).
+  rewrite Ebody in T5. clear Ebody.
+  assert (Hlines : tc_lines t <> []) by (destruct (tc_lines t); [discriminate T1 | discriminate]).
+  pose proof (SpecReaderContent.joined_ends (tc_kind t) (tc_lines t) Hlines) as Hends.
+  fold (joined t) in Hends. rewrite <- Etxt in Hends.
+  unfold wopt. rewrite kw_copts by discriminate. unfold le_ok in T5.
+  destruct (opt "line_endings" (fs_opts s)) as [v|].
+  - apply beq_eq in T5. subst v. cbn [wval]. rewrite SpecReaderBase.le_name_conv. cbn [wv_of_pv].
+    rewrite pre_resolve_declared. exact Hends.
+  - cbn [wval]. unfold pre_resolve. cbn [declared_newline].
+    apply SpecReaderContent.le_kind_eqb_eq in T5.
+    destruct (tc_kind t) eqn:Ekind.
+    + (* unix *)
+      unfold text_codec in Ecd. destruct (eff_enc x s) as [eb|]; [|discriminate Ecd].
+      destruct (SpecReaderCodec.codec_laws_x eb cd Ecd) as (bom & enc0 & laws & _).
+      destruct (tc_lines t) as [|l0 ls] eqn:El; [congruence|].
+      assert (Hg : snd (guess_line_endings_text txt) = [10%N]).
+      { rewrite Etxt. unfold joined. rewrite El, Ekind.
+        exact (unix_text_guess eb cd bom enc0 laws (tc_mark cd t) (indent_of s) l0 ls T2 T4 T5). }
+      destruct (guess_line_endings_text txt) as [l nl]. cbn [snd] in *. subst nl. exact Hends.
+    + (* dos: both possible guesses are suffixes *)
+      destruct (WF.guess_text_cases txt) as [-> | ->]; cbn [snd].
+      * exact Hends.
+      * apply suffix_crlf_lf. exact Hends.
+Qed.
+
+Lemma sec_final_wf : forall prev x s, wf_section prev x s = true -> sec_content_final s = true.
+Proof.
+  intros prev x s Hwf. pose proof (wf_payload _ _ _ Hwf) as Hpay.
+  destruct (sid_kind (fs_id s)) eqn:Hk.
+  - unfold sec_content_final. rewrite Hk. reflexivity.
+  - destruct Hpay as [[txt Ep] | [b Ep]].
+    + exact (pre_final_wf prev x s txt Hwf Hk Ep).
+    + unfold sec_content_final. rewrite Hk, Ep. reflexivity.
+  - unfold sec_content_final. rewrite Hk. reflexivity.
+  - destruct Hpay as [b Ep]. exact (diff_final_wf prev x s b Hwf Hk Ep).
+Qed.
+
+Lemma secs_final_wf : forall ss prev x, wf_secs prev x ss = true -> forallb sec_content_final ss = true.
+Proof.
+  induction ss as [|s ss IH]; intros prev x H; [reflexivity|].
+  cbn [wf_secs forallb] in *. apply andb_true_iff in H. destruct H as [Hs Hss].
+  rewrite (sec_final_wf prev x s Hs). exact (IH _ _ Hss).
+Qed.
+
+(* the contents of every text / diff section of a well-formed file already end with their line ending, as the
+   object model determines it *)
+Theorem contents_final_wf : forall f, wf_file f = true -> contents_final f = true.
+Proof.
+  intros f H. unfold wf_file in H. apply andb_true_iff in H. destruct H as [H _].
+  exact (secs_final_wf (ff_sections f) None ectx0 H).
+Qed.
+
+(* ================================================================================================ *)
+(** * The theorem *)
+
+(* the oracle hypothesis of C05_full / C06_full on the calls the file gives rise to *)
+Lemma foreign_tree_oracle : forall f orc,
+  wf_file f = true -> dom_accepts f = true -> opts_known f = true -> no_meta_line_endings f = true ->
+  RoundTrip.oracle_ok orc (file_calls f) -> tree_oracle_ok orc (tree_of_file f).
+Proof.
+  intros f orc Hwf Hacc Hkn Hle H cs Hcs. rewrite (foreign_tree_calls f Hwf Hacc Hkn Hle) in Hcs.
+  injection Hcs as <-. exact H.
+Qed.
+
+Theorem C06_foreign : forall f orc t,
+  wf_file f = true -> oracle_ok_file orc f ->
+  (Z.of_nat (length (render_file f)) <= sys_maxsize)%Z ->
+  dom_read orc (render_file f) = Ok t ->
+  opts_known f = true -> no_meta_line_endings f = true -> choice_values_ok f = true ->
+  sub_metas_nonempty f = true -> metas_plain f = true ->
+  exists b, dom_write t = Ok b /\ same_contents t (normalise t) /\
+    (tree_oracle_ok orc t -> tree_metas_oracle_ok orc t -> tree_guesses_ok t ->
+     (Z.of_nat (length b) <= sys_maxsize)%Z ->
+     dom_read orc b = Ok (normalise t) /\ dom_write (normalise t) = Ok b /\
+     normalise (normalise t) = normalise t /\
+     (forall b', dom_write (normalise t) = Ok b' -> dom_read orc b' = Ok (normalise t))).
+Proof.
+  intros f orc t Hwf Horc Hsz Hread Hkn Hle Hch Hne Hpl.
+  destruct (foreign_read_inv f orc t Hwf Horc Hsz Hread) as [Hacc ->].
+  exact (foreign_reserialise f orc Hwf Hacc Hkn Hle Hch Hne Hpl (contents_final_wf f Hwf)).
+Qed.
+
+Theorem foreign_domain_wf : forall f,
+  wf_file f = true -> dom_accepts f = true -> opts_known f = true -> no_meta_line_endings f = true ->
+  choice_values_ok f = true -> sub_metas_nonempty f = true -> metas_plain f = true ->
+  typed_tree (tree_of_file f) = true /\ tree_encs_ok (tree_of_file f) = true /\
+  tree_indents_ok (tree_of_file f) = true /\ same_contents (tree_of_file f) (normalise (tree_of_file f)).
+Proof. intros f H1 H2 H3 H4 H5 H6 H7. apply foreign_domain; auto. apply contents_final_wf; exact H1. Qed.
+
+(* the instance: every hypothesis holds for [fx_good], and the conclusion *)
+Example fx_good_C06 :
+  exists b, dom_write (tree_of_file fx_good) = Ok b /\
+            same_contents (tree_of_file fx_good) (normalise (tree_of_file fx_good)) /\
+            dom_read fx_orc b = Ok (normalise (tree_of_file fx_good)) /\
+            dom_write (normalise (tree_of_file fx_good)) = Ok b /\ b = fx_good_bytes.
+Proof.
+  destruct fx_good_premises as (P1 & P2 & P3 & P4 & P5 & P6 & P7 & _).
+  destruct fx_good_tree_hyps as (T1 & T2 & T3).
+  destruct (C06_foreign fx_good fx_orc _ P1 fx_good_oracle fx_good_size fx_good_read P3 P4 P5 P6 P7)
+    as (b & Hb & Hsame & Hrest).
+  assert (Eb : b = fx_good_bytes) by (rewrite fx_good_writes in Hb; congruence).
+  assert (Hsz : (Z.of_nat (length b) <= sys_maxsize)%Z) by (rewrite Eb; vm_compute; discriminate).
+  destruct (Hrest T1 T2 T3 Hsz) as (R1 & R2 & _ & _).
+  exists b. repeat split; assumption.
+Qed.
+
+Example fx_good_all_hypotheses :
+  wf_file fx_good = true /\ oracle_ok_file fx_orc fx_good /\
+  (Z.of_nat (length (render_file fx_good)) <= sys_maxsize)%Z /\
+  dom_read fx_orc (render_file fx_good) = Ok (tree_of_file fx_good) /\
+  opts_known fx_good = true /\ no_meta_line_endings fx_good = true /\ choice_values_ok fx_good = true /\
+  sub_metas_nonempty fx_good = true /\ metas_plain fx_good = true /\
+  tree_oracle_ok fx_orc (tree_of_file fx_good) /\ tree_metas_oracle_ok fx_orc (tree_of_file fx_good) /\
+  tree_guesses_ok (tree_of_file fx_good).
+Proof.
+  destruct fx_good_premises as (P1 & _ & P3 & P4 & P5 & P6 & P7 & _). destruct fx_good_tree_hyps as (T1 & T2 & T3).
+  exact (conj P1 (conj fx_good_oracle (conj fx_good_size (conj fx_good_read (conj P3 (conj P4 (conj P5 (conj P6
+        (conj P7 (conj T1 (conj T2 T3))))))))))).
+Qed.
+
+(* [metas_plain]: the oracle is a parameter of the model; a value json.dumps rejects makes to_bytes() raise TypeError *)
+Definition rx_bad_val : json := JObj [(asc "a", JBad)].
+Definition rx_bad_orc : oracle := [ (oracle_key_text (txt_a1 ++ [10%N]), LoadsOk rx_bad_val) ].
+Definition rx_bad_json : ffile := file_of_secs [mainsec; metasec MainMeta [(B "length", B "8")] txt_a1 rx_bad_val].
+Example bad_json_refuted :
+  wf_file rx_bad_json = true /\ oracle_ok_file rx_bad_orc rx_bad_json /\
+  dom_read rx_bad_orc (render_file rx_bad_json) = Ok (tree_of_file rx_bad_json) /\
+  dom_write (tree_of_file rx_bad_json) = Err EType /\
+  other_premises rx_bad_json = (true, true, true, true, false, true).
+Proof.
+  split; [vm_compute; reflexivity|].
+  split; [unfold oracle_ok_file; repeat (constructor; [vm_compute; first [exact I | reflexivity]|]); constructor|].
+  repeat split; vm_compute; reflexivity.
 Qed.
